@@ -216,3 +216,12 @@ def check(ctx, run):  # noqa: F811
     from ..ctors import ctor_rule
     from ..primaries import primary_classes
     ctor_rule(ctx, run, "C12.R8", ["pfhedge.instruments.derivative." + c for c in ("european.EuropeanOption", "lookback.LookbackOption", "european_binary.EuropeanBinaryOption", "american_binary.AmericanBinaryOption", "cliquet.EuropeanForwardStartOption", "variance_swap.VarianceSwap")], {"strike", "call", "start", "maturity", "underlier"}, "the contract terms the payoff reads are not the ones the derivative was created with")
+
+
+_check_before_histories = check
+
+
+def check(ctx, run):  # noqa: F811
+    _check_before_histories(ctx, run)
+    from ..registry import histories_rule
+    histories_rule(ctx, run, "C12.R9")
